@@ -154,7 +154,8 @@ def run_check(cid, tier, only=None, verbose=True):
     mod = load_check(cid)
     insts = mod.instances(tier)
     sel = [i for i, it in enumerate(insts) if only is None or only in it.name]
-    jobs = run_jobs([Job(cid, tier, i, 'sym', 'sym', insts[i].timeout) for i in sel])
+    cap = int(os.getenv('VF_MAX_INST_TIMEOUT', '0') or 0)
+    jobs = run_jobs([Job(cid, tier, i, 'sym', 'sym', min(insts[i].timeout, cap) if cap else insts[i].timeout) for i in sel])
     # second round: replays of models and translator validation on the real unshimmed code
     rjobs = []
     for j in jobs:
